@@ -1,6 +1,7 @@
 //! Protocol `patcheck` (C07): the real parser + type checker on a generated module.
 //!
-//! Input line:  `chk <hex of samlang source>`  (one module `Test`, no imports)
+//! Input line:  `chk <hex of samlang source>`  (one module `Test`, no imports);
+//!              `chkstd <hex>`: the same, checked together with the embedded standard library
 //! Answer:      `ok`                                   no diagnostics at all
 //!              `E <line>:<Kind>[:<hex payload>] ...`  every diagnostic, sorted (BTreeSet order of ErrorSet)
 //!              `panic <hex message>`                  the checker/parser panicked
@@ -21,16 +22,31 @@ fn kind_name(d: &ErrorDetail) -> String {
   dbg.split(|c: char| !c.is_ascii_alphanumeric()).next().unwrap_or("?").to_string()
 }
 
-fn check(source: &str) -> String {
+fn check(source: &str, with_std: bool) -> String {
   let mut heap = Heap::new();
   let mut error_set = ErrorSet::new();
   let mod_ref = heap.alloc_module_reference_from_string_vec(vec!["Test".to_string()]);
   let module =
     samlang_parser::parse_source_module_from_text(source, mod_ref, &mut heap, &mut error_set);
-  let sources = HashMap::from([(mod_ref, module)]);
+  let mut sources = HashMap::from([(mod_ref, module)]);
+  if with_std {
+    // the standard library as the compiler embeds it (std/*.sam via include_str!): tuple patterns are
+    // resolved against std.tuples
+    for (std_ref, text) in samlang_parser::builtin_std_raw_sources(&mut heap) {
+      let m = samlang_parser::parse_source_module_from_text(&text, std_ref, &mut heap, &mut error_set);
+      sources.insert(std_ref, m);
+    }
+  }
   let _ = samlang_checker::verif_hooks_c07::take();
   let _ = samlang_checker::verif_hooks_c07::take_scopes();
-  let _ = samlang_checker::type_check_sources(&sources, &mut error_set);
+  let (_, global_cx) = samlang_checker::type_check_sources(&sources, &mut error_set);
+  if with_std {
+    // hook records of the Test module only: re-check it alone against the same global signature
+    let _ = samlang_checker::verif_hooks_c07::take();
+    let _ = samlang_checker::verif_hooks_c07::take_scopes();
+    let mut scratch = ErrorSet::new();
+    let _ = samlang_checker::type_check_module(mod_ref, &sources[&mod_ref], &global_cx, &mut scratch);
+  }
   // hook (cfg(samlang_verif)): the abstract pattern lists the checker handed to the analysis
   let mut abs = String::new();
   for (entry, nodes) in samlang_checker::verif_hooks_c07::take() {
@@ -51,7 +67,8 @@ fn check(source: &str) -> String {
   }
   let mut out = vec!["E".to_string()];
   for e in error_set.errors() {
-    let line = e.location.start.0 + 1;
+    // diagnostics inside the standard library are reported on line 0
+    let line = if e.location.module_reference == mod_ref { e.location.start.0 + 1 } else { 0 };
     let item = match &e.detail {
       ErrorDetail::NonExhaustiveMatch { counter_example } => {
         format!("{line}:NonExhaustiveMatch:{}", hex(counter_example.pretty_print(&heap).as_bytes()))
@@ -71,9 +88,10 @@ fn main() {
   for_each_line(|line| {
     let t: Vec<&str> = line.split(' ').collect();
     match t[0] {
-      "chk" if t.len() >= 2 => {
+      "chk" | "chkstd" if t.len() >= 2 => {
         let src = unhex_str(t[1]);
-        match catch_unwind(AssertUnwindSafe(|| check(&src))) {
+        let with_std = t[0] == "chkstd";
+        match catch_unwind(AssertUnwindSafe(|| check(&src, with_std))) {
           Ok(s) => s,
           Err(e) => format!("panic {}", hex(panic_msg(&e).as_bytes())),
         }
